@@ -667,12 +667,23 @@ fn with_nth(t: &mut T, n: &mut usize, f: &mut dyn FnMut(&mut T)) -> bool {
 
 /// plant one random mutation that *may* violate the contract at a random node
 pub fn plant(rng: &mut Rng, t: &T) -> (T, &'static str) {
-    let kind = rng.below(13);
+    let kind = rng.below(14);
     plant_kind(rng, t, kind)
 }
 
 /// plant the mutation of the given kind (0..12) at a random node
 pub fn plant_kind(rng: &mut Rng, t: &T, kind: u64) -> (T, &'static str) {
+    if kind == 13 {
+        // one named chance infoset at a node whose first weight dominates so much that its
+        // normalised probability is exactly one, and at a single-outcome node: the two nodes do not
+        // have the same outcomes, whatever the first probability rounds to
+        let tiny = *rng.pick(&[1e-17, 1e-300, 5e-324, 2.2250738585072014e-308]);
+        let lab = 970 + rng.below(3) as u32;
+        let a = T::Chance(Some(lab), vec![(1.0, t.clone()), (tiny, T::Term(0.5))]);
+        let b = T::Chance(Some(lab), vec![(1.0, T::Term(-0.25))]);
+        let pair = if rng.chance(0.7) { vec![(1.0, a), (2.0, b)] } else { vec![(1.0, b), (2.0, a)] };
+        return (T::Chance(None, pair), "dominant-weight-and-single-outcome");
+    }
     let mut out = t.clone();
     let n = count_nodes(t);
     let mut idx = rng.below(n as u64) as usize;
@@ -932,8 +943,11 @@ pub fn gen_profile(rng: &mut Rng, t: &T, kind: ProfKind) -> [Named; 2] {
                 }
                 ProfKind::Tiny => {
                     let k = rng.below(n as u64) as usize;
+                    // (now and then every weight of the infoset is tiny: a total far below the
+                    // smallest normal double is a total like any other)
+                    let big = if rng.chance(0.3) { *rng.pick(&[3e-310, 1e-315, 5e-324]) } else { 1.0 };
                     (0..n)
-                        .map(|i| if i == k { 1.0 } else { *rng.pick(&[1e-310, 5e-324, 1e-300, 0.0, 2.5e-308, 0.25, 1e-20, 1e-17, 3e-16]) })
+                        .map(|i| if i == k { big } else { *rng.pick(&[1e-310, 5e-324, 1e-300, 0.0, 2.5e-308, 0.25, 1e-20, 1e-17, 3e-16]) })
                         .collect()
                 }
                 ProfKind::Zeros => {
